@@ -135,8 +135,9 @@ def worker(chunk):
             st['plain_programs'] = st.get('plain_programs', 0) + 1
             if sem.get('plain_hyp'):
                 st['plain_hypotheses_hold'] = st.get('plain_hypotheses_hold', 0) + 1
-                if not (tr['spec'].get('cb') or {}):
-                    st['plain_hypotheses_hold_and_NoCb'] = st.get('plain_hypotheses_hold_and_NoCb', 0) + 1
+                if (tr['spec'].get('cb') or {}):
+                    st['plain_programs_with_suspending_collaborators'] = \
+                        st.get('plain_programs_with_suspending_collaborators', 0) + 1
             elif not div:
                 div = {'why': 'a pipeline of plain Input dependencies does not satisfy the hypotheses (plainCheck) of the '
                               'plain-fragment theorems', 'at': -1}
